@@ -18,6 +18,8 @@ type Contract struct {
 	OnStores []*OnStore
 	OnCalls  []*OnCall
 	OnMapUpdates []*OnStore // assertions at m[k] = v where m was loaded from the named field ($key, $value, $was, $owner)
+	CountStores []string // struct field names whose stores are counted in ghost $nstore_<field>
+	CountCalls []string // callee names whose calls are counted in ghost $ncall_<name>
 	NoStores []string // struct field names that the function (and what it inlines) must never store to
 	FullLoops []string // loop keys: the loop is left only through its header test
 }
@@ -33,6 +35,7 @@ type Contracts struct {
 	Specs   map[string]*SpecFunc
 	Order   []string
 	Assumed []string
+	PureMethods map[string]bool // "Iface.Method": dynamic calls are a pure function of the receiver (assumed)
 }
 
 func (e *Exec) contractOf(fn *ssa.Function) *Contract {
